@@ -183,6 +183,9 @@ func (ba *accumulator) Finalize() (header *MerkleHeader, err error) {
 			hash := r.Hash()
 			if hash != nil {
 				if err = ba.treeBucket.Set(hash, r.Bytes()); err != nil {
+					if restore {
+						r.RemoveBack()
+					}
 					return nil, err
 				}
 			}
